@@ -4,16 +4,16 @@ Open Scope string_scope.
 
 Lemma authorize_sound_l pol trusted ep : authorize pol trusted ep = true ->
   lookup ep pol = Some Open \/ (lookup ep pol = Some Trusted /\ trusted = true).
-Proof. unfold authorize. destruct (lookup ep pol) as [[| |]|]; intros H; try discriminate; auto. Qed.
+Proof. unfold authorize, authorize_entry. destruct (lookup ep pol) as [[| |]|]; intros H; try discriminate; auto. Qed.
 
 Lemma authorize_untrusted pol ep : authorize pol false ep = true -> lookup ep pol = Some Open.
 Proof. intros H. apply authorize_sound_l in H. destruct H as [H|[_ H]]; [auto|discriminate]. Qed.
 
 Lemma authorize_closed pol trusted ep : lookup ep pol = Some Closed -> authorize pol trusted ep = false.
-Proof. unfold authorize. intros ->. reflexivity. Qed.
+Proof. unfold authorize, authorize_entry. intros ->. reflexivity. Qed.
 
 Lemma authorize_missing pol trusted ep : lookup ep pol = None -> authorize pol trusted ep = false.
-Proof. unfold authorize. intros ->. reflexivity. Qed.
+Proof. unfold authorize, authorize_entry. intros ->. reflexivity. Qed.
 
 (* trust follows the history *)
 Lemma in_filter_neq p q s : In q (filter (fun x => negb (N.eqb p x)) s) <-> In q s /\ q <> p.
@@ -54,3 +54,55 @@ Proof. intros Hu. unfold deliver, validator. induction msgs as [|m r IH]; simpl;
   destruct (N.eqb_spec (fst m) u) as [E|E]; simpl.
   - rewrite E, Hu. exact IH.
   - destruct (trust_crdt cfg h (fst m)); simpl; congruence. Qed.
+
+Lemma authorize_trusted_entry pol trusted ep : lookup ep pol = Some Trusted -> authorize pol trusted ep = trusted.
+Proof. unfold authorize, authorize_entry. intros ->. reflexivity. Qed.
+
+Lemma authorize_open_entry pol trusted ep : lookup ep pol = Some Open -> authorize pol trusted ep = true.
+Proof. unfold authorize, authorize_entry. intros ->. reflexivity. Qed.
+
+Lemma lookup_in k v (p : list (string * ept)) : lookup k p = Some v -> In (k, v) p.
+Proof. induction p as [|[k' v'] r IH]; simpl; [discriminate|].
+  destruct (String.eqb_spec k k') as [->|Hn]; intros H; [injection H as ->; now left | right; auto]. Qed.
+
+Lemma in_lookup_some k v (p : list (string * ept)) : In (k, v) p -> exists v', lookup k p = Some v'.
+Proof. induction p as [|[k' v'] r IH]; simpl; [tauto|]. intros [H|H].
+  - injection H as -> ->. rewrite String.eqb_refl. eauto.
+  - destruct (String.eqb k k'); eauto. Qed.
+
+(* a call made by the peer on itself is never subject to authorization; a remote one always is *)
+Lemma call_allowed_local pol trusted ep : call_allowed pol true trusted ep = true.
+Proof. reflexivity. Qed.
+Lemma call_allowed_remote pol trusted ep : call_allowed pol false trusted ep = authorize pol trusted ep.
+Proof. reflexivity. Qed.
+
+Lemma trust_raft_all p : trust_raft p = true.
+Proof. reflexivity. Qed.
+
+(* trust in CRDT mode, read off the configuration alone (empty history) *)
+Lemma trust_configured cfg p :
+  trust_crdt cfg [] p = true <-> trust_all cfg = true \/ p = self cfg \/ In p (configured cfg).
+Proof. rewrite trust_follows_history_l. simpl. intuition; discriminate. Qed.
+
+Lemma last_op_app p h o : last_op p (h ++ [o]) =
+  if N.eqb (op_peer o) p then Some (match o with TTrust _ => true | _ => false end) else last_op p h.
+Proof. unfold last_op. rewrite fold_left_app. reflexivity. Qed.
+
+(* a later Trust / Distrust call decides, whatever came before *)
+Lemma trust_after_trust cfg h p : trust_crdt cfg (h ++ [TTrust p]) p = true.
+Proof. apply trust_follows_history_l. right; right; left. rewrite last_op_app. simpl. now rewrite N.eqb_refl. Qed.
+
+Lemma trust_after_distrust cfg h p : trust_all cfg = false -> p <> self cfg -> trust_crdt cfg (h ++ [TDistrust p]) p = false.
+Proof. intros Ha Hs. destruct (trust_crdt cfg (h ++ [TDistrust p]) p) eqn:E; auto.
+  apply trust_follows_history_l in E. rewrite last_op_app in E. simpl in E. rewrite N.eqb_refl in E.
+  destruct E as [E|[E|[E|[E _]]]]; congruence. Qed.
+
+Lemma trust_other_unchanged cfg h o p : op_peer o <> p -> trust_crdt cfg (h ++ [o]) p = trust_crdt cfg h p.
+Proof. intros Hn. apply eq_true_iff_eq. rewrite !trust_follows_history_l, last_op_app.
+  destruct (N.eqb_spec (op_peer o) p); [congruence|tauto]. Qed.
+
+(* the validator is the trust function of the signer; a replica merges validated broadcasts only *)
+Lemma deliver_in {U} cfg h (msgs : list (N * U)) u :
+  In u (deliver cfg h msgs) -> exists s, In (s, u) msgs /\ trust_crdt cfg h s = true.
+Proof. unfold deliver, validator. rewrite in_map_iff. intros [[s u'] [E H]]. simpl in E. subst u'.
+  apply filter_In in H. destruct H as [H1 H2]. exists s. auto. Qed.
